@@ -840,6 +840,19 @@ func (s *fatSys) apply(op fsOp) (err error, viols []explore.Viol) {
 				n.MTime, n.ATime, n.CTime = &a, &b, &c
 			}
 		}
+	case "fillappend":
+		// append one block at a time to a single file until the filesystem refuses (uses every last block
+		// without running out of inodes or directory slots first)
+		for i := 0; i < 200000; i++ {
+			e, _ := s.apply(fsOp{Kind: "append", Path: op.Path, Len: "c"})
+			if e != nil {
+				if live, verr := fsView(s.fs, s.model.caseFold, 4096, 1<<25); verr == nil {
+					s.resync(live, op.Path)
+				}
+				break
+			}
+		}
+		return nil, viols
 	case "fillsmall", "filldirs":
 		// create numbered small files (or directories) until the filesystem refuses; the refusal is the expected end
 		for i := 0; i < 20000; i++ {
